@@ -289,6 +289,15 @@ func checkRequest(req []byte, extra map[string]string, prevKeys map[string]bool)
 			return fmt.Sprintf("caller header %s: got %q want %q", k, r.Header.Get(k), v)
 		}
 	}
+	// ... and only the caller's headers of THIS handshake: what an earlier handshake on the same stream was given
+	// (a token, a cookie) is not sent again
+	for k := range r.Header {
+		if strings.HasPrefix(k, "X-Verif-") {
+			if _, given := extra[k]; !given {
+				return fmt.Sprintf("the request carries %s: %q, which this handshake was not given (a header of an earlier handshake on the same stream)", k, r.Header.Get(k))
+			}
+		}
+	}
 	return ""
 }
 
@@ -320,7 +329,7 @@ func readClientFrames(c net.Conn, n int) ([]rfc6455.Frame, error) {
 
 func TestC18_Handshake(t *testing.T) {
 	rec := evid.For("C18")
-	rec.SetRule("rapid: 1..3 handshakes on one Stream against a raw TCP server in the harness; response = status {101 (two reason phrases), 200, 400, 426} x Upgrade {websocket in 3 spellings, missing, h2c, near misses: websockets, websocket2, xwebsocket, websocke, WebSocket-Draft76} x Sec-WebSocket-Accept {right, wrong, missing, near misses: letter case swapped, one letter's case flipped, truncated, padding removed} x header-name case x separator after the colon {' ', '', two spaces, tab, trailing space} x header order permutation x extra headers (incl. a 700..9000-byte cookie: heads larger than the client's initial 1 KiB buffer) x piggy-backed frames {none, 1..3 complete messages, last one cut after 1..6 bytes} x segmentation (1..3 cuts, 3 ms apart) x server close at byte j; blocking and asynchronous handshake; between handshakes the previous session may leave a queued Close(1002); oracle: request well-formed with a fresh 16-byte key and the caller's headers; success iff (101 and Upgrade: websocket and correct accept and response fully sent); failure => error, State()==Terminated and the server sees the client's end of the connection (not half-open); after success the messages read are exactly the piggy-backed ones followed by the later ones, and the first two frames the server receives are exactly the two the new session wrote; non-trivial = conforming response that is segmented or varied in case/whitespace with >=1 piggy-backed frame, or a second handshake on the same stream; distinct = hash of the plans")
+	rec.SetRule("rapid: 1..3 handshakes on one Stream against a raw TCP server in the harness; response = status {101 (two reason phrases), 200, 400, 426} x Upgrade {websocket in 3 spellings, missing, h2c, near misses: websockets, websocket2, xwebsocket, websocke, WebSocket-Draft76} x Sec-WebSocket-Accept {right, wrong, missing, near misses: letter case swapped, one letter's case flipped, truncated, padding removed} x header-name case x separator after the colon {' ', '', two spaces, tab, trailing space} x header order permutation x extra headers (incl. a 700..9000-byte cookie: heads larger than the client's initial 1 KiB buffer) x piggy-backed frames {none, 1..3 complete messages, last one cut after 1..6 bytes} x segmentation (1..3 cuts, 3 ms apart) x server close at byte j; blocking and asynchronous handshake; between handshakes the previous session may leave a queued Close(1002); oracle: request well-formed with a fresh 16-byte key and exactly the caller's headers of this handshake (none of an earlier one); success iff (101 and Upgrade: websocket and correct accept and response fully sent); failure => error, State()==Terminated and the server sees the client's end of the connection (not half-open); after success the messages read are exactly the piggy-backed ones followed by the later ones, and the first two frames the server receives are exactly the two the new session wrote; non-trivial = conforming response that is segmented or varied in case/whitespace with >=1 piggy-backed frame, or a second handshake on the same stream; distinct = hash of the plans")
 	segKnown := known.Listed("C18", "response-single-read")
 	vt.Check(t, 400, func(rt *rapid.T) {
 		ln, err := net.Listen("tcp", "127.0.0.1:0")
@@ -356,6 +365,11 @@ func TestC18_Handshake(t *testing.T) {
 			if rapid.Bool().Draw(rt, lbl+"hdr") {
 				extraHdr["X-Verif-Token"] = fmt.Sprintf("tok-%d", round)
 				hdrs = append(hdrs, websocket.ExtraHeader(true, "X-Verif-Token", extraHdr["X-Verif-Token"]))
+			}
+			if rapid.IntRange(0, 2).Draw(rt, lbl+"hdr2") == 0 {
+				name := rapid.SampledFrom([]string{"X-Verif-Session", "X-Verif-Api-Key"}).Draw(rt, lbl+"hdr2name")
+				extraHdr[name] = fmt.Sprintf("v-%d", round)
+				hdrs = append(hdrs, websocket.ExtraHeader(true, name, extraHdr[name]))
 			}
 			out := make(chan hsServerResult, 1)
 			go serveOne(ln, p, out)
